@@ -18,6 +18,7 @@ func init() {
 		Assumptions: []string{"fmutils.NestedMask.Filter keeps exactly the masked fields, Prune clears exactly the masked fields, proto.Merge copies set fields of src into dst, protoreflect Range stops when the callback returns false"},
 		Run:         runC05,
 		Controls: []Control{
+			{Name: "overlap-by-raw-prefix", File: "pkg/masks/update.go", Old: "if path == p || strings.HasPrefix(path, p+\".\") || strings.HasPrefix(p, path+\".\") {", New: "if strings.HasPrefix(path, p) || strings.HasPrefix(p, path) {", Expect: "R05.2"},
 			{Name: "remove-validate", File: "pkg/resource/value.go", Old: "\tif err := writer.Validate(value); err != nil {\n\t\treturn nil, err\n\t}\n", New: "", Expect: "R05.1"},
 			{Name: "other-updater", File: "pkg/resource/collection.go", Old: "\t\twriteRequest.changeFn(writer, msg),", New: "\t\twriteRequest.changeFn(writeRequest.fieldUpdater(nil), msg),", Expect: "R05.1"},
 			{Name: "readonly-as-internal", File: "pkg/masks/update.go", Old: "return status.Errorf(codes.InvalidArgument, \"%v mentions read-only fields\", f.updateMaskFieldName)", New: "return status.Errorf(codes.Internal, \"%v mentions read-only fields\", f.updateMaskFieldName)", Expect: "R05.2"},
@@ -267,6 +268,60 @@ func r052(c *an.Ctx) {
 		walk(deciding.Cond, 0)
 		c.Check(depU && depW && !cardinality, rule, cons, deciding.Pos(), "the rejection depends on the update mask's and the writable fields' paths",
 			fmt.Sprintf("the read-only test depends on update mask: %v, writable fields: %v, is a comparison of path counts: %v - equal cardinality of the mask and of its intersection with the writable fields does not mean every path is writable (e.g. {a, b} against writable {a.x, a.y}: the read-only b is accepted and then cleared)", depU, depW, cardinality))
+	}
+	// path overlap is decided on whole path segments: wherever the read-only test compares paths by prefix, the prefix
+	// ends in the separator ("level" must not cover "level_change_time")
+	{
+		var scope []*ssa.Function
+		seenF := map[*ssa.Function]bool{}
+		add := func(f *ssa.Function) {
+			for _, g := range an.WithClosures(f) {
+				if !seenF[g] {
+					seenF[g] = true
+					scope = append(scope, g)
+				}
+			}
+		}
+		add(fn)
+		for _, h := range an.TransparentCalleesOf(fn, 2) {
+			add(h)
+		}
+		for _, g := range c.Prog.FuncsIn("pkg/masks") {
+			if g.Name() == "overlapsAny" {
+				add(g)
+			}
+		}
+		for i := 0; i < len(scope); i++ { // helpers of the helpers (a predicate method calling overlapsAny)
+			for _, h := range an.TransparentCalleesOf(scope[i], 1) {
+				add(h)
+			}
+		}
+		nPrefix, whole := 0, true
+		var where token.Pos
+		for _, g := range scope {
+			for _, cl := range an.CallsTo(g, "strings.HasPrefix") {
+				nPrefix++
+				pre := cl.Common().Args[1]
+				ok := false
+				if bo, isBO := pre.(*ssa.BinOp); isBO && bo.Op == token.ADD {
+					if k, isC := bo.Y.(*ssa.Const); isC && k.Value != nil && k.Value.ExactString() == `"."` {
+						ok = true
+					}
+				}
+				if !ok {
+					whole, where = false, cl.Pos()
+				}
+			}
+		}
+		if nPrefix > 0 {
+			if where == token.NoPos {
+				where = fn.Pos()
+			}
+			c.Check(whole, rule, name+"|path overlap is decided on whole path segments", where, fmt.Sprintf("%d prefix tests, each against a path followed by the separator", nPrefix),
+				"a path is taken to overlap a writable path when one is a plain string prefix of the other: a read-only field whose name merely starts with a writable field's name (level_change_time next to level) passes validation and is then overwritten or cleared by the write")
+		} else {
+			c.Note("R05.2: the read-only test uses no prefix comparison; the segment-boundary clause does not apply")
+		}
 	}
 	// a write without update mask is accepted: the nil edge leads to a nil return without passing a rejection
 	okNil := false
